@@ -763,7 +763,11 @@ class BasePlaceholderManager(MpfController):
     def _eval_subscript(self, node, variables, subscribe):
         value, subscription = self._eval(node.value, variables, subscribe)
         if isinstance(node.slice, ast.Constant):
-            return value[node.slice.value], subscription
+            ret_value = value[node.slice.value]
+            if subscribe and isinstance(node.slice.value, str) and hasattr(value, "subscribe_attribute"):
+                # machine["a"] reads the same variable as machine.a and has to be notified on changes as well
+                subscription = subscription + [value.subscribe_attribute(node.slice.value)]
+            return ret_value, subscription
         if isinstance(node.slice, ast.Index):
             slice_value, slice_subscript = self._eval(node.slice.value, variables, subscribe)
             try:
